@@ -428,6 +428,7 @@ def bases():
     q.append(Base(tc.t2_case(64, 'generic', fill=6), 3))
     q.append(Base(tc.t2_case(504, 'ntag215', 0, 'none'), 300))
     q.append(Base(tc.t2_case(1016, 'generic', fill=6), 2))
+    q.append(Base(tc.t2_case(2040, 'generic', 0, 'sector', 8), 1100))
     q.append(Base(tc.t2_case(128, 'ntag212', 0, 'tail2', 2), 40))
     q.append(Base(tc.t2_case(144, 'ntag213', 2, 'before', 1), 20))
     q.append(Base(tc.t2_case(504, 'ntag215', fill=257), 254))
